@@ -109,6 +109,21 @@ var ErrTimeout = errors.New("session i/o deadline exceeded (inconclusive)")
 type panics struct {
 	mu   sync.Mutex
 	list []string
+	errs []string
+}
+
+func (p *panics) addErr(s string) {
+	p.mu.Lock()
+	p.errs = append(p.errs, s)
+	p.mu.Unlock()
+}
+
+// ProxyErrors returns the errors with which the proxy loops ended the session (acra-server logs them and
+// closes the connections).
+func (s *Session) ProxyErrors() []string {
+	s.pan.mu.Lock()
+	defer s.pan.mu.Unlock()
+	return append([]string(nil), s.pan.errs...)
 }
 
 func (p *panics) add(s string) {
@@ -258,8 +273,17 @@ func Start(cfg Config) (*Session, error) {
 		}()
 		f()
 	}
-	go guard("ProxyClientConnection", func() { proxy.ProxyClientConnection(cs.ctx, errCh) })
-	go guard("ProxyDatabaseConnection", func() { proxy.ProxyDatabaseConnection(cs.ctx, errCh) })
+	proxyErrs := make(chan base.ProxyError, 4)
+	go guard("ProxyClientConnection", func() { proxy.ProxyClientConnection(cs.ctx, proxyErrs) })
+	go guard("ProxyDatabaseConnection", func() { proxy.ProxyDatabaseConnection(cs.ctx, proxyErrs) })
+	// acra-server waits for the first error of either loop and then closes the session's connections
+	go func() {
+		e := <-proxyErrs
+		pan.addErr(fmt.Sprintf("%v (%v)", e, e.Unwrap()))
+		acraClient.Close()
+		acraDB.Close()
+		errCh <- e
+	}()
 
 	store := cfg.Store
 	if store == nil {
